@@ -424,7 +424,7 @@ func (g *Gen) lexemes() []string {
 			t = append(t, []string{"H->E", "H<-E", "H<->E"}[g.pick(3)])
 		}
 		if g.pick(2) == 0 {
-			t = append(t, []string{"Name", "n.1", "x<y"}[g.pick(3)])
+			t = append(t, []string{"Name", "n.1", "x<y", "Lot/Wafer", "a/", "/b/c"}[g.pick(6)])
 		}
 		if g.pick(6) != 0 {
 			t = append(t, g.itemLexemes(2)...)
